@@ -173,6 +173,13 @@ impl<'a, K: HKey> Ctx<'a, K> {
             let want = self.map.get(&k).map_or("absent".to_string(), |c| c.len().to_string());
             self.expect(&format!("size {}", hx(&kb)), &want);
             if self.rng.chance(1, 3) {
+                // contains_key / require_item / is_empty / len / contains_blob_hash / keys_snapshot
+                let item = self.map.get(&k).map_or("notfound".to_string(), |c| format!("{}:{}", b3(c), c.len()));
+                let want = format!("contains={} item={} empty={} len={} hashknown={} keys={}", self.map.contains_key(&k), item,
+                    self.map.is_empty(), self.map.len(), self.map.contains_key(&k), self.map.len());
+                self.expect(&format!("idxq {}", hx(&kb)), &want);
+            }
+            if self.rng.chance(1, 3) {
                 let l = self.map.get(&k).map_or(0, |c| c.len() as u64);
                 let (s, e) = (self.rng.below(l + 2), self.rng.below(l + 3));
                 let (s, e) = if s > e { (e, s) } else { (s, e) };
